@@ -77,6 +77,10 @@ def cell_msgs(w, rng, p, q):
 def callers(w, p, q, owner, former):
     cs = [("owner", owner), ("stranger", "trader1"), ("attacker", "attacker"), ("factory", w.factory), ("router", w.router),
           ("rogue_cw20", w.rogue)]
+    # account names the simulator's address codec refuses (shorter than 3 / longer than 54 characters): a check that
+    # canonicalises the sender must fail closed for them. (No upper-case spelling of the owner: the codec folds case, so
+    # "OWNER" IS the owner's account, as an upper-case bech32 string is on a real chain.)
+    cs += [("oddname_short", "me"), ("oddname_long", "x" * 60)]
     if former:
         cs.append(("former_owner", former))
     for i, pr in enumerate((p, q)):
